@@ -57,7 +57,9 @@ def run(ctx):
     pats = ["".join(t) for n in range(1, L + 1) for t in itertools.product("ab.*", repeat=n)]
     pats = [p for p in pats if p not in (".", "..")]
     if quick:
-        pats = [p for p in pats if p.count("*") >= 1][:0] + rng.sample(pats, 300)
+        # a sample of all patterns, plus longer ones with two and three stars whose literal pieces repeat (the pieces of a pattern must be found in order, without overlap)
+        longer = ["".join(t) for n in (5, 6) for t in itertools.product("ab*", repeat=n) if 2 <= t.count("*") <= 3 and t[0] != "*"]
+        pats = rng.sample(pats, 300) + rng.sample(longer, 150) + ["a**a*", "a*a*a*", "a*b*b*", "ab*b*a", "a*a*a", "a*ab*b", "aa*a*a*"]
     chunks = [pats[i:i + 150] for i in range(0, len(pats), 150)]
     cases = [{"op": "glob", "tree": [[n, False] for n in names], "patterns": ch} for ch in chunks]
     res = vh.run_cases(cases, shards=8, timeout_ms=120000)
